@@ -116,7 +116,15 @@ class ToEvents(Stream):
 
     def gen(self, rng, n):
         for i in range(n):
-            yield {"score": sg.rand_score(rng, max_chords=4, cont=0.3), "tempo": rng.choice([60, 120, 120, 90, 30, 240, 72, 100])}
+            sc = sg.rand_score(rng, max_chords=4, cont=0.3)
+            if i % 5 == 2:
+                # durations off every usual MIDI grid: septuplets, ninths, 64ths (times stay exact rationals)
+                for c in sc:
+                    for _, notes in c["parts"]:
+                        for x in notes:
+                            if rng.random() < 0.4:
+                                x["dur"] = rng.choice([F(1, 7), F(2, 7), F(1, 9), F(1, 16), F(3, 11), F(4, 7)])
+            yield {"score": sc, "tempo": rng.choice([60, 120, 120, 90, 30, 240, 72, 100])}
 
     def impl(self, case):
         def f():
